@@ -252,7 +252,7 @@ BasesSend == {{}, {"body"}, {"body", "fallbackBody"}}
 
 Enc(style, S) ==
     IF style = "plain" THEN S
-    ELSE LET c == "body" \in S \/ "trustMessage" \in S
+    ELSE LET c == "body" \in S \/ "bodyLang" \in S \/ "trustMessage" \in S
          IN  IF c THEN ((S \ SlotKinds("eme")) \cup {"emeOmemo2", "fallbackBody", "fallbackMarker"})
                   ELSE S \ {"fallbackMarker"}
 
